@@ -178,6 +178,25 @@ func basicFor(p param, k *kind, l *logical) mat.Matrix {
 	return &m
 }
 
+// slug turns a panic message into a stable key fragment (letters only).
+func slug(s string) string {
+	var sb strings.Builder
+	dash := false
+	for _, r := range strings.ToLower(s) {
+		if r >= 'a' && r <= 'z' {
+			sb.WriteRune(r)
+			dash = false
+		} else if !dash && sb.Len() > 0 {
+			sb.WriteByte('-')
+			dash = true
+		}
+		if sb.Len() >= 48 {
+			break
+		}
+	}
+	return strings.TrimRight(sb.String(), "-")
+}
+
 func recvName(t recvType) string {
 	return [...]string{"func", "Dense", "VecDense", "SymDense", "TriDense"}[t]
 }
@@ -198,7 +217,8 @@ func statesFor(op *opDef) []int {
 func checkOpSub(sub string) func(c opCase) *vk.Failure {
 	return func(c opCase) *vk.Failure {
 		f := checkOp(sub, c)
-		if f != nil && !strings.HasPrefix(f.Key, c.Op+"/") {
+		if f != nil && !strings.HasSuffix(sub, "/"+c.Op) {
+			// the random subs mix operations: name the operation in the key
 			f.Key = c.Op + "/" + f.Key
 		}
 		return f
@@ -332,7 +352,9 @@ func checkOp(sub string, c opCase) *vk.Failure {
 		big = max(rr, rc)
 	}
 	vk.Class("op=" + op.name)
-	vk.Class("op:families=" + op.name + ":" + strings.Join(fams, ","))
+	if len(fams) <= 2 {
+		vk.Class("op:families=" + op.name + ":" + strings.Join(fams, ","))
+	}
 	vk.Class("recv=" + recvName(op.recv) + "/" + stateNames[state])
 	vk.Class("mode=" + fmt.Sprint(c.Mode))
 	if (nonCompact || (len(x.ks) == 0 && state != stZero)) && big >= 2 {
@@ -373,7 +395,7 @@ func checkOp(sub string, c opCase) *vk.Failure {
 		return fmt.Sprintf("%s(%s) %s recv=%s dims=%v alpha=%v p=%d mode=%d", op.name, strings.Join(names, ", "), run, stateNames[state], d, x.alpha, x.p, c.Mode)
 	}
 	if res := vk.Call(func() { op.run(x) }); res.Outcome != vk.Returned {
-		return vk.Failf("panic", "%s ended in %v: %s", what("rendered operands"), res.Outcome, res.Text)
+		return vk.Failf("panic/"+slug(res.Text), "%s ended in %v: %s", what("rendered operands"), res.Outcome, res.Text)
 	}
 	if x.err != nil {
 		return vk.Failf("error", "%s returned error %v on a well-conditioned operand", what("rendered operands"), x.err)
@@ -415,14 +437,14 @@ func checkOp(sub string, c opCase) *vk.Failure {
 	}
 	x2.out, x2.err, x2.ints = nil, nil, nil
 	if op.recv != rNone {
-		st2, init2 := stZero, []float64(nil)
+		st2, init2 := op.basicState, []float64(nil)
 		if op.sizedOnly {
 			st2, init2 = stSized, x.recv.init
 		}
 		x2.recv = newReceiver(op.recv, st2, rr, rc, upper, b, init2)
 	}
 	if res := vk.Call(func() { op.run(&x2) }); res.Outcome != vk.Returned {
-		return vk.Failf("panic-basic", "%s ended in %v: %s", what("basic operands"), res.Outcome, res.Text)
+		return vk.Failf("panic-basic/"+slug(res.Text), "%s ended in %v: %s", what("basic operands"), res.Outcome, res.Text)
 	}
 	if x2.err != nil {
 		return vk.Failf("error-basic", "%s returned error %v", what("basic operands"), x2.err)
